@@ -1,11 +1,12 @@
 #!/usr/bin/env python3
-"""Applies every kept seeded change (seeded/<id>/patch.diff) to /repo in turn,
-runs the check of its property, and undoes it straight afterwards.
-Usage: tools/seed_eval.py [ids...]   (prints one line per seed)"""
+"""Applies every kept seeded change (seeded/<id>/patch.diff) to a scratch worktree of /repo's HEAD in turn and runs the
+check of its property against that tree (/repo itself is never touched; safe to run concurrently).
+Usage: tools/seed_eval.py [ids or property ids...]   (prints one line per seed)"""
 import json
 import os
 import subprocess
 import sys
+import tempfile
 
 HERE = os.path.dirname(os.path.dirname(os.path.abspath(__file__)))
 REPO = "/repo"
@@ -16,38 +17,44 @@ def sh(*a, **k):
 
 
 def main():
-    ids = sys.argv[1:] or sorted(os.listdir(os.path.join(HERE, "seeded")))
-    assert sh("git", "-C", REPO, "status", "--porcelain", "--untracked-files=no").stdout.strip() == "", "repo dirty"
+    sel = sys.argv[1:]
+    ids = sorted(os.listdir(os.path.join(HERE, "seeded")))
+    if sel:
+        ids = [i for i in ids if i in sel or i.split("-")[0] in [s.upper() for s in sel]]
+    tree = tempfile.mkdtemp(prefix="seed_eval_", dir="/tmp")
+    os.rmdir(tree)
+    assert sh("git", "-C", REPO, "worktree", "add", "--detach", tree, "HEAD").returncode == 0
     rows = []
-    for sid in ids:
-        d = os.path.join(HERE, "seeded", sid)
-        if not os.path.exists(os.path.join(d, "patch.diff")):
-            continue
-        meta = json.load(open(os.path.join(d, "meta.json")))
-        prop = meta["property"]
-        r = sh("git", "-C", REPO, "apply", os.path.join(d, "patch.diff"))
-        if r.returncode != 0:
-            rows.append((sid, prop, "PATCH-DOES-NOT-APPLY", r.stderr.strip()[:100]))
-            continue
-        try:
-            out = {}
-            for tier in ("quick", "thorough"):
-                c = sh(os.path.join(HERE, "check"), prop, "--tier", tier, "--rule", "", cwd=HERE) if False else \
-                    sh("/venv/bin/python", "-m", "sa.main", prop, "--tier", tier, cwd=HERE,
-                       env={**os.environ, "PYTHONDONTWRITEBYTECODE": "1", "VERIF_NO_EVIDENCE": "1"})
-                rules = sorted({ln.split("rule=")[1].split()[0] for ln in c.stdout.splitlines() if " rule=" in ln})
-                out[tier] = (c.returncode, rules)
-                if c.returncode == 1:
-                    break
-            det = "DETECTED" if any(rc == 1 for rc, _ in out.values()) else \
-                  ("ANALYSIS-ERROR" if any(rc == 2 for rc, _ in out.values()) else "MISSED")
-            rows.append((sid, prop, det, json.dumps(out)))
-        finally:
-            sh("git", "-C", REPO, "checkout", "--", ".")
+    try:
+        for sid in ids:
+            d = os.path.join(HERE, "seeded", sid)
+            if not os.path.exists(os.path.join(d, "patch.diff")):
+                continue
+            meta = json.load(open(os.path.join(d, "meta.json")))
+            prop = meta["property"]
+            r = sh("git", "-C", tree, "apply", os.path.join(d, "patch.diff"))
+            if r.returncode != 0:
+                rows.append((sid, prop, "PATCH-DOES-NOT-APPLY", r.stderr.strip()[:100]))
+                continue
+            try:
+                out = {}
+                for tier in ("quick", "thorough"):
+                    c = sh("/venv/bin/python", "-m", "sa.main", prop, "--tier", tier, "--repo", tree, cwd=HERE,
+                           env={**os.environ, "PYTHONDONTWRITEBYTECODE": "1", "VERIF_NO_EVIDENCE": "1", "VERIF_NO_WITNESS": "1"})
+                    rules = sorted({ln.split("rule=")[1].split()[0] for ln in c.stdout.splitlines() if " rule=" in ln})
+                    out[tier] = (c.returncode, rules)
+                    if c.returncode == 1:
+                        break
+                det = "DETECTED" if any(rc == 1 for rc, _ in out.values()) else \
+                      ("ANALYSIS-ERROR" if any(rc == 2 for rc, _ in out.values()) else "MISSED")
+                rows.append((sid, prop, det, json.dumps(out)))
+            finally:
+                sh("git", "-C", tree, "checkout", "--", ".")
+                sh("git", "-C", tree, "clean", "-fdq")
+    finally:
+        sh("git", "-C", REPO, "worktree", "remove", "--force", tree)
     for r in rows:
         print(*r)
-    # evidence files were rewritten by the patched runs: restore them
-    sh("git", "-C", HERE, "checkout", "--", "evidence")
 
 
 if __name__ == "__main__":
